@@ -19,14 +19,17 @@ S(str) == str
 dStr == JArr(<<JStr(cA), JStr(<<120, 97, 98>>), JStr(cB), JStr(<<98, 97>>), JStr(<<97, 98>>)>>)           \* ["a","xab","b","ba","ab"]
 dObj == JObj(<<cA, cB>>, <<JArr(<<JInt(1), JInt(2)>>), JObj(<<cA>>, <<JInt(1)>>)>>)                       \* {"a":[1,2],"b":{"a":1}}
 dMix == JArr(<<JObj(<<cA>>, <<JInt(1)>>), JObj(<<cA>>, <<JInt(2)>>), JArr(<<JInt(1)>>), JStr(<<97, 98>>)>>) \* [{"a":1},{"a":2},[1],"ab"]
-Docs0 == <<dStr, dObj, dMix>>
+dSet == JObj(<<<<101>>, cL>>, <<JArr(<<JInt(1), JInt(2), JInt(3)>>), JArr(<<JInt(1), JInt(2)>>)>>)          \* {"e":[1,2,3],"l":[1,2]}
+Docs0 == <<dStr, dObj, dMix, dSet>>
 
 Pat1 == <<97, 124, 98>>        \* a|b      : match and search differ on "xab", "ba", "ab"
 Pat2 == <<97, 46, 42>>         \* a.*
 Re(f, p) == Flt1(LTest(FALSE, EFn(f, <<ERel(<<>>), ELit(JStr(p))>>)))
 SQ == << Re("match", Pat1), Re("search", Pat1), Re("match", Pat2), Re("search", Pat2),
          <<N1(cA)>>, <<Child(<<SWild>>)>>, <<Desc(<<SName(cA)>>)>>, <<Child(<<SIndex(0), SIndex(0)>>)>>,
-         Flt1(LCmp("==", RelN(cA), ELit(JInt(1)))), Flt1(LCmp(">", EFn("length", <<ERel(<<>>)>>), ELit(JInt(1)))) >>
+         Flt1(LCmp("==", RelN(cA), ELit(JInt(1)))), Flt1(LCmp(">", EFn("length", <<ERel(<<>>)>>), ELit(JInt(1)))),
+         Flt1(LTest(FALSE, EAbs(<<N1(cB)>>))),                                                                      \* 11: $[?$.b]   $-rooted existence test
+         <<N1(<<101>>), Child(<<SFilter(LTest(FALSE, EFn("in", <<ERel(<<>>), EAbs(<<N1(cL)>>)>>)))>>)>> >>          \* 12: $.e[?in(@, $.l)]
 Entries == <<"query", "query_with_path", "query_only_path", "prepared">>
 
 OpBlank == [k |-> "eval", e |-> "", q |-> 0, d |-> 0, loc |-> <<>>, v |-> JNull]
@@ -38,14 +41,17 @@ Ops == << Ev("query", 1, 1), Ev("prepared", 2, 1), Ev("query_only_path", 2, 1), 
           Ev("query", 5, 2), Ev("query_only_path", 5, 3), Ev("prepared", 6, 2), Ev("query_with_path", 6, 3),      \* same query on two documents
           Ev("query", 7, 2), Ev("prepared", 7, 3), Ev("query_only_path", 8, 2), Ev("query_with_path", 8, 3), Ev("query", 8, 1),
           Ev("prepared", 9, 3), Ev("query", 10, 1), Ev("prepared", 10, 3),
-          Wr(1, <<IdxStep(1)>>, JStr(cB)), Wr(2, <<NameStep(cA)>>, JInt(7)), Wr(3, <<IdxStep(0), NameStep(cA)>>, JInt(2)) >>
+          Ev("prepared", 11, 2), Ev("query", 11, 2), Ev("prepared", 12, 4), Ev("query_with_path", 12, 4),
+          Wr(1, <<IdxStep(1)>>, JStr(cB)), Wr(2, <<NameStep(cA)>>, JInt(7)), Wr(3, <<IdxStep(0), NameStep(cA)>>, JInt(2)),
+          Wr(2, <<>>, JArr(<<JObj(<<cA>>, <<JInt(1)>>)>>)),                                   \* replaces the whole document in place: $.b disappears
+          Wr(4, <<NameStep(cL), IdxStep(0)>>, JInt(3)) >>                                     \* changes the list the membership test reads
 Progs == [i \in 1..Len(Ops) |-> <<Ops[i]>>] \o Cross2(Ops, Ops, LAMBDA a, b : <<a, b>>)
 
 Threads == {1, 2}
 VARIABLES prog, ip, pc, docs, hist
 vars == <<prog, ip, pc, docs, hist>>
 
-PairStride == IF Thorough THEN 23 ELSE 401
+PairStride == IF Thorough THEN 37 ELSE 701
 Init == /\ \E i, j \in 1..Len(Progs) : Stride(PairStride, i, j) /\ prog = <<Progs[i], Progs[j]>>
         /\ ip = <<1, 1>> /\ pc = <<"idle", "idle">> /\ docs = Docs0 /\ hist = <<>>
 
